@@ -113,6 +113,36 @@ class AnnAssign(ast.NodeTransformer):
         return node
 
 
+class Decomp(ast.NodeTransformer):
+    """T = [elt for tgt in it if c]   ->   T = []; for tgt in it: if c: T.append(elt)     (single generator, statement level)"""
+    def _block(self, stmts):
+        out = []
+        for s in stmts:
+            if isinstance(s, ast.Assign) and len(s.targets) == 1 and isinstance(s.targets[0], ast.Name) and isinstance(s.value, ast.ListComp) \
+                    and len(s.value.generators) == 1 and not s.value.generators[0].is_async:
+                g = s.value.generators[0]
+                t = s.targets[0].id
+                used = {n.id for n in ast.walk(s.value) if isinstance(n, ast.Name)}
+                if t in used:
+                    out.append(s); continue
+                body = [ast.Expr(value=ast.Call(func=ast.Attribute(value=ast.Name(id=t, ctx=ast.Load()), attr="append", ctx=ast.Load()),
+                                                args=[s.value.elt], keywords=[]))]
+                for c in reversed(g.ifs):
+                    body = [ast.If(test=c, body=body, orelse=[])]
+                out.append(ast.copy_location(ast.Assign(targets=[ast.Name(id=t, ctx=ast.Store())], value=ast.List(elts=[], ctx=ast.Load())), s))
+                out.append(ast.copy_location(ast.For(target=g.target, iter=g.iter, body=body, orelse=[]), s))
+            else:
+                out.append(s)
+        return out
+    def generic_visit(self, node):
+        super().generic_visit(node)
+        for f in ("body", "orelse", "finalbody"):
+            b = getattr(node, f, None)
+            if isinstance(b, list) and b and isinstance(b[0], ast.stmt):
+                setattr(node, f, self._block(b))
+        return node
+
+
 d = tempfile.mkdtemp(prefix="verif_ast_")
 for sub in ("molgri", "workflow"):
     shutil.copytree(os.path.join("/repo", sub), os.path.join(d, sub), ignore=shutil.ignore_patterns("__pycache__", "*.pyc"))
@@ -121,7 +151,7 @@ for dp, dn, fn in os.walk(os.path.join(d, "molgri")):
         if f.endswith(".py"):
             p = os.path.join(dp, f)
             t = ast.parse(open(p).read())
-            t = {"retvar": RetVar, "ifswap": IfSwap, "hoist": Hoist, "marker": Marker, "annassign": AnnAssign}[mode]().visit(t)
+            t = {"retvar": RetVar, "ifswap": IfSwap, "hoist": Hoist, "marker": Marker, "annassign": AnnAssign, "decomp": Decomp}[mode]().visit(t)
             ast.fix_missing_locations(t)
             open(p, "w").write(ast.unparse(t) + "\n")
 print(d)
